@@ -33,6 +33,10 @@ fn health() {
     let mut out = io::BufWriter::new(stdout.lock());
     let mut st = crate::common::StatusState::new();
     let mut svc = crate::service_main::service_state::ServiceState::default();
+    let mut drv = crate::service_main::verif_child::Driver::new();
+    let scratch = std::env::var("VERIF_SCRATCH").map(std::path::PathBuf::from).unwrap_or_else(|_| std::env::temp_dir());
+    // the monitor functions log through the extension's logger, as set up by the handler
+    crate::logger::init_logger(scratch.join("log").to_string_lossy().to_string(), "ProxyAgentExt-verif.log");
     for line in stdin.lock().lines() {
         let line = line.unwrap();
         let t: Vec<&str> = line.trim().split(' ').collect();
@@ -42,6 +46,21 @@ fn health() {
                 "ok".to_string()
             }
             ["health", "obs", b] => canon_state(&st.update_state(*b == "1")),
+            ["mon", "new"] => {
+                drv = crate::service_main::verif_child::Driver::new();
+                "ok".to_string()
+            }
+            // the monitor loop's own functions (private to service_main, reached through a child module)
+            ["mon", "substatus", filev, extv, nconn, nfail] => {
+                let r = drv.substatus(filev, extv, nconn.parse().unwrap(), nfail.parse().unwrap());
+                let mut it = r.splitn(2, ' ');
+                format!("{} {}", canon_state(it.next().unwrap_or("")), it.next().unwrap_or(""))
+            }
+            ["mon", "service", outcome] => {
+                let r = drv.service_status(outcome, &scratch.join("status"));
+                let mut it = r.splitn(2, ' ');
+                format!("{} {}", canon_state(it.next().unwrap_or("")), canon_state(it.next().unwrap_or("")))
+            }
             ["svc", "new"] => {
                 svc = crate::service_main::service_state::ServiceState::default();
                 "ok".to_string()
